@@ -177,6 +177,7 @@ func checkProperty(id string, thorough, verbose bool, replayFile string, timeout
 	for _, l := range plan.lemmas {
 		results = append(results, ld.verifyLemma(l))
 	}
+	planFuncs = done
 	results = append(results, ld.staticScans(id)...)
 	results = append(results, ld.missingObligations(id)...)
 	genS := time.Since(t0).Seconds() - loadS
